@@ -14,7 +14,14 @@ def one(d):
     ev = tempfile.mkdtemp(prefix="seedev_")
     subprocess.check_call(["git", "-C", "/repo", "worktree", "add", "-q", "--detach", wt, "HEAD"])
     try:
-        subprocess.check_call(["git", "-C", wt, "apply", os.path.join(d, "patch.diff")])
+        rc = subprocess.call(["git", "-C", wt, "apply", os.path.join(d, "patch.diff")], stderr=subprocess.DEVNULL)
+        if rc != 0:
+            rc = subprocess.call(["git", "-C", wt, "apply", "--3way", os.path.join(d, "patch.diff")], stderr=subprocess.DEVNULL)
+        if rc != 0:
+            meta["applies_at_head"] = False
+            json.dump(meta, open(meta_p, "w"), indent=1)
+            return meta
+        meta["applies_at_head"] = True
         env = dict(os.environ, VERIF_REPO=wt, VERIF_EVIDENCE_DIR=ev, VERIF_NO_SELFTEST="1")
         caught, closed, details = [], [], {}
         for i in range(1, 21):
@@ -40,7 +47,7 @@ def one(d):
 
 def main():
     dirs = sorted(os.path.join(VERIF, "seeded", p, n) for p in os.listdir(os.path.join(VERIF, "seeded"))
-                  if os.path.isdir(os.path.join(VERIF, "seeded", p)) for n in os.listdir(os.path.join(VERIF, "seeded", p)))
+                  if os.path.isdir(os.path.join(VERIF, "seeded", p)) and not p.startswith("_") for n in os.listdir(os.path.join(VERIF, "seeded", p)))
     with ThreadPoolExecutor(max_workers=8) as ex:
         metas = list(ex.map(one, dirs))
     lines = ["# Seeded changes", "",
